@@ -32,41 +32,60 @@ def run_harnesses(prop, specs, repo_root, tier):
     if not todo:
         return out
     os.makedirs(CACHE, exist_ok=True)
-    # one scratch source copy per run; the cargo target dir is shared (cargo serialises access)
-    scratch = tempfile.mkdtemp(prefix='verif_kani_src_', dir=CACHE)
+    # Kani runs are serialised (one lock), use ONE fixed scratch source path (stable cargo package id) and
+    # start from a target dir without any artefact of the alpenglow package: cargo-kani was observed to pick
+    # up stale harness artefacts of an earlier source copy from a shared target dir (=> a false alarm).
+    import fcntl
+    lock = open(os.path.join(CACHE, 'kani.lock'), 'w')
+    fcntl.flock(lock, fcntl.LOCK_EX)
+    scratch = os.path.join(CACHE, 'kani-src')
+    os.makedirs(scratch, exist_ok=True)
     try:
         _copy_repo(repo_root, scratch)
         env = dict(os.environ)
         env['CARGO_NET_OFFLINE'] = 'true'
-        env['CARGO_TARGET_DIR'] = os.path.join(CACHE, 'kani-target')
-        # group harnesses by identical args so the crate is compiled once per group
-        groups = {}
-        for s in todo:
-            groups.setdefault(tuple(s.get('args', [])), []).append(s)
-        for args, hs in groups.items():
+        tdir = os.path.join(CACHE, 'kani-target')
+        env['CARGO_TARGET_DIR'] = tdir
+        import glob
+        for pat in ('kani/*/debug/build/alpenglow', 'kani/*/debug/incremental/alpenglow-*', 'kani/*/debug/.fingerprint/alpenglow-*',
+                    'kani/*/debug/deps/*alpenglow*'):
+            for d in glob.glob(os.path.join(tdir, pat)):
+                shutil.rmtree(d, ignore_errors=True) if os.path.isdir(d) else os.remove(d)
+        # one cargo-kani process per harness (own hard timeout; the crate build is shared through the
+        # target dir, cargo serialises it), at most 4 at a time to bound memory
+        import concurrent.futures as cf
+
+        def one(s):
             cmd = ['cargo', 'kani', '--lib', '-Z', 'function-contracts', '-Z', 'stubbing', '-Z', 'unstable-options',
-                   '--output-format', 'terse', '-j', '8']
-            cmd += list(args)
-            for s in hs:
-                cmd += ['--harness', s['name']]
-            tmo = sum(s.get('timeout', 300) for s in hs) + 600
+                   '--output-format', 'terse', '--harness', s['name']] + list(s.get('args', []))
             t0 = time.time()
+            tmo = s.get('timeout', 300)
             try:
-                p = subprocess.run(cmd, cwd=scratch, env=env, capture_output=True, text=True, timeout=tmo)
-                text = p.stdout + '\n' + p.stderr
-            except subprocess.TimeoutExpired as e:
-                text = (e.stdout or b'').decode(errors='replace') if isinstance(e.stdout, bytes) else (e.stdout or '')
-                text += '\nTIMEOUT'
-            dt = time.time() - t0
-            out['harnesses'] += parse_kani_output(text, hs, dt)
-            for m in re.finditer(r'- Stub: (.*)', text):
-                out['assumptions'].append('kani stub: ' + m.group(1).strip())
+                p = subprocess.Popen(cmd, cwd=scratch, env=env, stdout=subprocess.PIPE, stderr=subprocess.STDOUT,
+                                     text=True, start_new_session=True)
+                try:
+                    text, _ = p.communicate(timeout=tmo + 240)
+                except subprocess.TimeoutExpired:
+                    import signal
+                    os.killpg(p.pid, signal.SIGKILL)
+                    text = (p.communicate()[0] or '') + '\nTIMEOUT'
+            except Exception as e:  # noqa: BLE001
+                text = 'kani could not be started: %s' % e
+            return s, text, time.time() - t0
+
+        with cf.ThreadPoolExecutor(max_workers=4) as pool:
+            for s, text, dt in pool.map(one, todo):
+                out['harnesses'] += parse_kani_output(text, [s], dt)
+                for m in re.finditer(r'- Stub: (.*)', text):
+                    out['assumptions'].append('kani stub: ' + m.group(1).strip())
+        out['assumptions'] = sorted(set(out['assumptions']))
         # concrete playback for refuted harnesses
         for h in out['harnesses']:
             if h['status'] == 'refuted':
                 h['playback'] = concrete_playback(scratch, env, h)
     finally:
-        shutil.rmtree(scratch, ignore_errors=True)
+        fcntl.flock(lock, fcntl.LOCK_UN)
+        lock.close()
     return out
 
 
